@@ -271,6 +271,26 @@ class TT:
                     nrest += t
                 rest = nrest
             return rest, false
+        # `if (name := value)`, `if (name := value) is None`, `if len(name := value) == 0`: bind, then judge the name
+        walrus = [n for n in ast.walk(test) if isinstance(n, ast.NamedExpr) and isinstance(n.target, ast.Name)]
+        if len(walrus) == 1:
+            ne = walrus[0]
+
+            import copy as _copy
+            test2 = _copy.deepcopy(test)
+
+            class _Sub2(ast.NodeTransformer):
+                def visit_NamedExpr(self, node):
+                    return ast.copy_location(ast.Name(id=node.target.id, ctx=ast.Load()), node)
+            test2 = ast.fix_missing_locations(_Sub2().visit(ast.Expression(body=test2))).body
+            true, false = [], []
+            for w2, val in self.eval_multi(fn, ne.value, w, depth):
+                w3 = w2.fork()
+                w3.env[ne.target.id] = val
+                t, f = self._guard(fn, test2, w3, depth)
+                true += t
+                false += f
+            return true, false
         # truthiness / emptiness / None-ness of a value
         probe = None
         if isinstance(test, ast.Compare) and len(test.ops) == 1 and isinstance(test.ops[0], (ast.Is, ast.IsNot, ast.Eq, ast.NotEq)) \
@@ -1077,12 +1097,18 @@ def loop_witness(fn, loop, ctx=None):
         for i, st in enumerate(loop.body):
             if isinstance(st, ast.If) and len(st.body) == 1 and isinstance(st.body[0], ast.Break) \
                     and isinstance(st.test, ast.Compare) and isinstance(st.test.ops[0], ast.In):
-                key = ast.dump(st.test.left)
+                left = st.test.left
+                keys = {ast.dump(left)}
+                if isinstance(left, ast.NamedExpr) and isinstance(left.target, ast.Name):     # `if (k := X) in V: break`
+                    keys = {ast.dump(left.value), ast.dump(ast.Name(id=left.target.id, ctx=ast.Load()))}
                 V = pat.root_name(st.test.comparators[0])
                 for st2 in loop.body[i + 1:]:
+                    if isinstance(left, ast.NamedExpr) and any(
+                            isinstance(x, ast.Name) and isinstance(x.ctx, ast.Store) and x.id == left.target.id for x in ast.walk(st2)):
+                        break
                     if isinstance(st2, ast.Expr) and isinstance(st2.value, ast.Call) and isinstance(st2.value.func, ast.Attribute) \
                             and st2.value.func.attr in ("append", "add") and pat.root_name(st2.value.func.value) == V \
-                            and st2.value.args and ast.dump(st2.value.args[0]) == key:
+                            and st2.value.args and ast.dump(st2.value.args[0]) in keys:
                         return "visited-set", f"each iteration breaks or adds a new element of a finite index set to `{V}`"
         # (c2) every path breaks or shrinks a collection that the `for ... else: break` iterates
         coll = set()
